@@ -6,8 +6,9 @@ ROOT = os.path.dirname(os.path.dirname(os.path.abspath(__file__)))
 meta = json.load(open(os.path.join(ROOT, "tools", "registry_meta.json")))
 imported = set(re.findall(r"import\s+(LowProofs\.Props\.C\d+)", open(os.path.join(ROOT, "lean", "LowProofs.lean")).read()))
 reg = {}
-for mod in sorted(imported):
-    pid = mod.split(".")[-1]
+mods = sorted(imported) + sorted(m for v in meta.values() for m in v.get("extra_modules", []))
+for mod in mods:
+    pid = mod.split(".")[-1][:3]
     src = open(os.path.join(ROOT, "lean", mod.replace(".", "/") + ".lean")).read()
     thms = []
     for m in re.finditer(r"(/--(?:(?!-/).)*-/\s*)?theorem\s+(%s_\w+'?)" % pid, src, flags=re.S):
@@ -15,6 +16,8 @@ for mod in sorted(imported):
         thms.append(dict(name="Low." + m.group(2), module=mod, clause=doc[:300] or m.group(2)))
     mm = meta.get(pid, {})
     partial = [t["name"] for t in thms if "_partial" in t["name"]]
+    if pid in reg:
+        thms = reg[pid]["theorems"] + thms
     reg[pid] = dict(complete=bool(mm.get("complete")) and not partial, open=mm.get("open", []) + (["partial theorems: " + ", ".join(partial)] if partial else []), theorems=thms)
 json.dump(reg, open(os.path.join(ROOT, "lean", "registry.json"), "w"), indent=1)
 print({k: (len(v["theorems"]), v["complete"]) for k, v in reg.items()})
